@@ -4,7 +4,7 @@ from ..runner import Op
 from . import c01, c02, c03, c14
 
 ID = "C09"
-KINDS = {"U": ["nearest_within_half", "link_corrects", "link_bitflips", "ml_is_nearest_decoder"],
+KINDS = {"U": ["nearest_within_half", "link_corrects", "link_bitflips", "link_chanSub", "ml_is_nearest_decoder"],
          "R": ["link_instances", "ideal_channel_ok", "inverse_is_decoder"],
          "K": ["C01.instances_ok (shared catalogue)", "C14.instances_ok (shared tables)"]}
 PARTIAL = ["soft chains (soft demodulator -> Wagner / BP / min-sum / SC decoders) and the Berlekamp-Massey / Reed decoders inside the chain are checked on the implementation against the property "
@@ -179,7 +179,7 @@ def corr(ctx):
                     if verb:
                         ops.append(Op("link %s %s %s %s %s %s" % (name, tn, verb, bstr(msgs[r_]), fl, ds), rows[r_], nontrivial=(sname != "ideal" or any(msgs[r_])), info={"site": site, "config": c_}, prop_ok=ok))
                     else:
-                        ops.append(Op("gray 0", "0", nontrivial=False, info={"site": site, "config": dict(c_, got=rows[r_])}, prop_ok=ok))
+                        ops.append(Op("gray 0", "0", nontrivial=True, info={"site": site, "config": dict(c_, got=rows[r_])}, prop_ok=ok))
                 ctx.count("hard_%s_%s" % (kind, sname), B)
     # ---------------- a modulation with memory in the chain: pi/4-QPSK (binary labelling), several calls on ONE model object,
     # in the default (training) mode where the alternation state is carried from call to call, and in evaluation mode after a reset
@@ -201,7 +201,7 @@ def corr(ctx):
             except Exception as e:
                 got = ["other:%s" % type(e).__name__]
             hist.append(nblk)
-            ops.append(Op("gray 0", "0", nontrivial=False, info={"site": "models:ChannelCodeModel.memory", "config": {"modulation": "pi/4-QPSK (binary labels)", "mode": mode, "blocks_per_row_history": list(hist), "sent": [bstr(m) for m in msgs], "got": got}},
+            ops.append(Op("gray 0", "0", nontrivial=True, info={"site": "models:ChannelCodeModel.memory", "config": {"modulation": "pi/4-QPSK (binary labels)", "mode": mode, "blocks_per_row_history": list(hist), "sent": [bstr(m) for m in msgs], "got": got}},
                           prop_ok=(got == [bstr(m) for m in msgs])))
         ctx.count("memory_chain")
     # ---------------- soft chains: soft demodulator output into soft-input decoders (ideal / displaced symbols)
@@ -240,7 +240,7 @@ def corr(ctx):
                         ok = tuple(out.shape) == (B, k) and got == [bstr(m) for m in msgs]
                     except Exception as e:
                         got, ok = ["other:%s: %s" % (type(e).__name__, str(e)[:80])], False
-                    ops.append(Op("gray 0", "0", nontrivial=False, info={"site": "models:ChannelCodeModel.soft", "config": {"chain": cname, "table": tn, "scenario": sname, "noise_var": nv, "sent": [bstr(m) for m in msgs], "got": got}}, prop_ok=ok))
+                    ops.append(Op("gray 0", "0", nontrivial=True, info={"site": "models:ChannelCodeModel.soft", "config": {"chain": cname, "table": tn, "scenario": sname, "noise_var": nv, "sent": [bstr(m) for m in msgs], "got": got}}, prop_ok=ok))
                 ctx.count("soft_" + sname)
     return ops
 
